@@ -87,7 +87,10 @@ def run_replay(path):
     try:
         p = subprocess.run([sys.executable, path], capture_output=True,
                            text=True, timeout=300, env=env, check=False)
-        return p.returncode, (p.stdout + p.stderr)[-3000:]
+        out = p.stdout + p.stderr
+        if len(out) > 3000:
+            out = out[:1500] + "\n[...]\n" + out[-1500:]
+        return p.returncode, out
     except subprocess.TimeoutExpired:
         return 124, "replay timed out"
 
